@@ -203,6 +203,58 @@ def run_pv(inverters: list[tuple[float, float]], power: float, outcomes: dict[in
         pvm.ComponentPoolStatusTracker = saved
 
 
+def run_pv_concurrent(inverters, req_a, req_b, outcomes):
+    """Two PV requests for disjoint inverter sets, the second one issued while the calls of the first are still awaited.
+    req_x = (power, [indexes into ``inverters``]).  Returns a list of two dicts like run_pv()."""
+    saved = pvm.ComponentPoolStatusTracker
+    pvm.ComponentPoolStatusTracker = StubTracker
+    try:
+        comps = {Component(1, ComponentCategory.GRID), Component(2, ComponentCategory.METER)}
+        conns = {Connection(1, 2)}
+        ids = [11 + k for k in range(len(inverters))]
+        for i in ids:
+            comps.add(Component(i, ComponentCategory.INVERTER, InverterType.SOLAR))
+            conns.add(Connection(2, i))
+        with virtual_loop(wall=False) as loop, fakes.fake_microgrid(comps, conns) as cm:
+            api = cm.api_client
+            api.on_set_power = make_outcome_fn(outcomes)
+            st = Broadcast(name="st")
+            res = Broadcast(name="res")
+            rx = res.new_receiver()
+            m = pvm.PVManager(st.new_sender(), res.new_sender(), timedelta(seconds=TIMEOUT_S))
+            loop.create_task(m.start())
+            loop.settle()
+            for i, (lo, hi) in zip(ids, inverters):
+                api.push(fakes.inv(i, il=lo, el=0.0, eu=0.0, iu=hi))
+            loop.settle()
+            tasks = []
+            for power, idxs in (req_a, req_b):
+                tasks.append(loop.create_task(m.distribute_power(Request(power=Power.from_watts(power), component_ids={ids[k] for k in idxs}))))
+                loop.settle()
+            while not all(t.done() for t in tasks) and loop.advance_to_next_timer(horizon=TIMEOUT_S * 3):
+                loop.settle()
+            results = []
+            while len(rx):
+                results.append(rx.consume())
+            out = []
+            for (power, idxs), t in zip((req_a, req_b), tasks):
+                want = {ids[k] for k in idxs}
+                r = next((x for x in results if set(x.request.component_ids) == want), None)
+                err = None
+                if not t.done():
+                    err = "distribute_power never returned"
+                elif t.cancelled():
+                    err = "distribute_power ended with a CancelledError although nobody cancelled it"
+                elif t.exception() is not None:
+                    err = repr(t.exception())
+                out.append({"result": r, "calls": [(c, w) for c, w in api.set_power_calls if c in want], "error": err, "ids": sorted(want)})
+            loop.create_task(m.stop())
+            loop.settle()
+            return out
+    finally:
+        pvm.ComponentPoolStatusTracker = saved
+
+
 class BatterySession:
     """One BatteryManager instance serving several requests in sequence (cheaper than
     one instance per request; every request sees the same component data)."""
